@@ -77,7 +77,8 @@ def job_configs(t):
     for c in c10_configs('quick'):
         out.append(dict(c, name='jobs-' + c['name']))
     if t == 'thorough':
-        out += [dict(c, name='jobs-' + c['name']) for c in c10_configs('thorough') if c['name'].endswith('-deep')]
+        out += [dict(c, name='jobs-' + c['name']) for c in c10_configs('thorough', deep_for_c16=True)
+                if c['name'].endswith('-deep')]
     return out
 
 
